@@ -242,3 +242,10 @@ def run_case(case, ctx):
         else:
             ctx.ok("computation_outside_block", f"compute|{len(prog)}", True)
     settings_guard.check_and_reset()
+
+
+def finish(ctx):
+    # thorough tier, shard 0: the repository's own test-suite as a second workload under this property's monitor
+    from .. import suite
+
+    suite.ingest(ctx, "settings", "suite.settings")
